@@ -115,6 +115,15 @@ CHECKS['C07'] = dict(
     design='4 (C07), 6 (D7, D8, D21)',
     technique='Coq invariant proof that every event is emitted by a safe node + flag-arithmetic monotonicity lemmas; exhaustive T2 correspondence of the safety arithmetic; sampled merge and eval correspondence with safe=False sources; provenance/taint oracle with unique markers and per-node recording targets for replays')
 
+CHECKS['C13'] = dict(
+    text='Machine-checked: C13_list_positions (list/scalar arguments are positions 0..n-1), C13_keywords, C13_gap (an argument after a gap is bound by the NAME of the positional '
+         'parameter at that index), C13_beyond (an index beyond the positional parameters is an error - true only after repair 78e347b), C13_positions_reach_parameters (against a '
+         'specification of Python\'s binding: the i-th argument reaches the i-th positional parameter, the surplus *args), and the merge table row by row: C13_table_container, '
+         'C13_table_string, C13_table_new_target (target replaced, merged arguments exactly the newer ones), C13_table_same_target. The binding specification (Model.Func.pybind) is '
+         'itself validated against real Python calls for every signature shape; import_name resolution is outside (tested only).',
+    design='4 (C13)',
+    technique='Coq proofs about resolve_args and a specification of Python argument binding + per-row lemmas on the function-node merge rule; vm_compute correspondence (merge, eval, binding acceptance); native-call and merge-table oracles for replays')
+
 NOT_APPLICABLE = {}
 
 
